@@ -244,6 +244,17 @@ func (x *Exec) havocGuarded(st *State, site ssa.Instruction) {
 		if f := strings.Fields(fd.Arg); len(f) == 0 || f[0] != mu {
 			continue
 		}
+		// a clause that names a field the struct no longer has is reported by the coverage
+		// scan and by the posts that mention it, not here
+		present := false
+		for i := 0; i < sst.NumFields(); i++ {
+			if sst.Field(i).Name() == fd.Field {
+				present = true
+			}
+		}
+		if !present {
+			continue
+		}
 		for _, k := range x.modifiesKeys(st, fd.Pkg, fd.Type+"."+fd.Field) {
 			if _, ok := st.sorts[k.key]; !ok {
 				st.sorts[k.key] = k.sort
